@@ -14,15 +14,18 @@ package utils
 //@   rely[map-stays] old(c.cache) != nil ==> c.cache == old(c.cache)
 
 //@ func (*MemoryCache).Get
+//@   ensures[map-init] cache.cache != nil
+//@   ensures[same-map] seq: old(cache.cache) != nil ==> cache.cache == old(cache.cache)
 //@   prop C12, C17
 //@   requires cache.clock != nil
 //@   allocates map
 //@   modifies cache.cache, now
 //@   ensures[hit]  result1 ==> atlock(cache.cache != nil && in(key, cache.cache)) && result0 == atlock(cache.cache[key].value) && now() <= atlock(cache.cache[key].expirationTimeNano)
 //@   ensures[miss] seq: !result1 ==> !old(cache.cache != nil && in(key, cache.cache)) || now() > old(cache.cache[key].expirationTimeNano)
-//@   ensures[same-map] seq: old(cache.cache) != nil ==> cache.cache == old(cache.cache)
 
 //@ func (*MemoryCache).Has
+//@   ensures[map-init] cache.cache != nil
+//@   ensures[same-map] seq: old(cache.cache) != nil ==> cache.cache == old(cache.cache)
 //@   prop C12
 //@   requires cache.clock != nil
 //@   allocates map
@@ -31,6 +34,8 @@ package utils
 //@   ensures[miss] seq: !result ==> !old(cache.cache != nil && in(key, cache.cache)) || now() > old(cache.cache[key].expirationTimeNano)
 
 //@ func (*MemoryCache).Set
+//@   ensures[map-init] cache.cache != nil
+//@   ensures[same-map] seq: old(cache.cache) != nil ==> cache.cache == old(cache.cache)
 //@   prop C12, C17
 //@   requires cache.clock != nil
 //@   allocates map
@@ -43,6 +48,8 @@ package utils
 //@   ensures[refused-unchanged] seq: result != nil ==> old(cache.cache) != nil ==> forall(k, K, (in(k, cache.cache) <==> old(in(k, cache.cache))) && cache.cache[k] == old(cache.cache[k]))
 
 //@ func (*MemoryCache).Del
+//@   ensures[map-init] cache.cache != nil
+//@   ensures[same-map] seq: old(cache.cache) != nil ==> cache.cache == old(cache.cache)
 //@   prop C12, C17
 //@   allocates map
 //@   modifies cache.cache, mapof(cache.cache), cache.currentCacheSize
